@@ -36,7 +36,7 @@ def main():
         exp = c["expect"]
         if any(exp) and not all(exp):
             nontrivial += 1
-        for variant in ("a", "b"):
+        for variant in ("a", "b", "c"):
             if o[variant] != exp:
                 qs = [q + 1 for q in range(len(exp)) if o[variant][q] != exp[q]]
                 ck.violation("IsAffected differs from the OSV evaluation for %s record %s at query positions %s (spelling %s): expected %s observed %s"
@@ -45,7 +45,7 @@ def main():
                 break
     if seen != len(cases):
         raise vf.NotAVerdict("harness returned %d of %d cases" % (seen, len(cases)))
-    ck.count(sum(2 * len(c["expect"]) for c in cases))
+    ck.count(sum(3 * len(c["expect"]) for c in cases))
     ck.cov["distinct_nontrivial"] = nontrivial
     ck.cov["traces_validated_against_impl"] = len(cases)
     ck.cov["cases_replayed"] = len(cases)
